@@ -187,7 +187,7 @@ def parse_model_line(m):
     for g in m.split(" || "):
         p = g.split("|")
         did = int(p[2][4:])
-        d = dict(rc=int(p[0][3:]), fault=int(p[1][6:]), did=did & 1, uninit=bool(did & 2), len=int(p[3][4:]), hash=p[4][5:], log=WM.parse_log_lines(p[5:]))
+        d = dict(rc=int(p[0][3:]), fault=int(p[1][6:]), did=did & 1, uninit=bool(did & 2), end_inplace=bool(did & 4), len=int(p[3][4:]), hash=p[4][5:], log=WM.parse_log_lines(p[5:]))
         out.append(d)
     return out
 
